@@ -159,6 +159,15 @@ def sig_class(c):
 _CASES = None
 
 
+def _nil_item(v):
+    """a nil ITEM inside a sequence (zeep leaves such items out of what it sends and reads them as empty objects)"""
+    if isinstance(v, list):
+        if len(v) == 2 and v[0] == 'seq':
+            return any(x == ['nil'] for x in v[1]) or any(_nil_item(x) for x in v[1])
+        return any(_nil_item(x) for x in v)
+    return False
+
+
 def _exchange_chunk(job):
     idxs, quick, seed = job
     fams = ['xml', 'soap11', 'soap12']
@@ -176,13 +185,16 @@ def _exchange_chunk(job):
                 try:
                     w = World(c, fam, v, poly=bool(c.get('poly')))
                     # one validator per case sees the same document with comments sprinkled in
-                    obs = w.exchange(noise='comments' if (i + fi + vi) % 3 == 0 else None)
+                    # one validator per case sees the same document with comments sprinkled in; now and then the document
+                    # is preceded by a long comment that puts a multi-byte character across the transport's block boundary
+                    noise = 'straddle' if (i + fi + vi) % 41 == 0 else 'comments' if (i + fi + vi) % 3 == 0 else None
+                    obs = w.exchange(noise=noise)
                     if v == 'soft' and c['id'] != 'T9' and (not quick or (i + fi) % 4 == seed % 4):
                         cd = client_decode(w)
                         if cd is not None:
                             obs['client'] = cd
                         # (zeep reads an empty xsd:string element as None: it cannot be the oracle for '' values)
-                        if fam in ('soap11', 'soap12') and '["leaf", ""]' not in json.dumps(c['rvals']) and not c.get('poly'):
+                        if fam in ('soap11', 'soap12') and '["leaf", ""]' not in json.dumps(c['rvals']) and not c.get('poly') and not _nil_item(c['vals']) and not _nil_item(c['rvals']):
                             zargs, zd = zeep_decode(w)
                             obs['zeep'] = zd
                             if zargs is not None:
